@@ -3,6 +3,7 @@ from __future__ import annotations
 
 import importlib
 import json
+import re
 import os
 import sys
 import time
@@ -51,8 +52,10 @@ def write_evidence(ctx: Ctx, mod, thms, forbidden, build_log_tail, violations: i
         "wall_s": round(ctx.elapsed(), 2),
         "violations": violations,
     }
-    (VERIF / "evidence").mkdir(exist_ok=True)
-    (VERIF / "evidence" / f"{ctx.prop}.json").write_text(json.dumps(ev, indent=1, ensure_ascii=True, default=str) + "\n")
+    # runs against a scratch worktree (seeded mutants) must not overwrite the evidence of /repo
+    evdir = VERIF / "evidence" if str(core.REPO) == "/repo" else OUT / "evidence-scratch"
+    evdir.mkdir(parents=True, exist_ok=True)
+    (evdir / f"{ctx.prop}.json").write_text(json.dumps(ev, indent=1, ensure_ascii=True, default=str) + "\n")
 
 
 def write_replay(ctx: Ctx, name: str, obj) -> Path:
@@ -88,13 +91,33 @@ def main(argv) -> int:
                 tables.generate()
             except Exception as e:  # extraction failed: attribute moved etc.
                 ctx.broken.append(f"table-extraction: {type(e).__name__}: {e}")
-        # 2. build model driver and the property's proofs
-        rc, log = core.lake(["build", "driver"])
+        # 2. build model driver and the property's proofs. A build error in a Lean file this property
+        #    does not depend on (someone else's half-written file) is infrastructure, not a broken obligation.
+        own = set(core.import_closure(prop))
+
+        def build(target):
+            for attempt in range(4):
+                rc, out = core.lake(["build", target])
+                if rc == 0:
+                    return rc, out, False
+                files = set(re.findall(r"error: ((?:PdModel|PdProps|Generated)/\w+\.lean)", out))
+                foreign = bool(files) and not (files & own)
+                if not foreign:
+                    return rc, out, False
+                time.sleep(15)
+            return rc, out, True
+        rc, log, foreign = build("driver")
+        if rc != 0 and foreign:
+            raise Infra("lake build driver fails in files this property does not depend on: " + log[-300:])
         if rc != 0:
             ctx.model_ok = False
             ctx.broken.append("lake build driver (model does not compile)")
-        rc, log2 = core.lake(["build", f"PdProps.{prop}"])
+        else:
+            ctx.driver.binary = core.snapshot_driver()
+        rc, log2, foreign = build(f"PdProps.{prop}")
         log += log2
+        if rc != 0 and foreign:
+            raise Infra("lake build fails in files this property does not depend on: " + log2[-300:])
         if rc != 0:
             errs = [l for l in log2.splitlines() if l.startswith("error")][:5]
             ctx.broken.append(f"lake build PdProps.{prop}: " + " | ".join(errs))
@@ -155,6 +178,11 @@ def main(argv) -> int:
         nviol = 1
         status = 1
     write_evidence(ctx, mod, thms, forbidden, log[-2000:], nviol)
+    if ctx.driver.binary is not None:
+        try:
+            ctx.driver.binary.unlink()
+        except OSError:
+            pass
     print(f"{prop} {tier} seed={seed}: theorems={len([t for t in thms if not core.is_aux(t)])} "
           f"evaluations={ctx.evaluations} nontrivial={len(ctx.nontrivial)} corr={ctx.traces_validated} "
           f"disagree={len(ctx.disagreements)} oracle_fail={len(ctx.failures)} known={len(seen_known)} "
